@@ -3,6 +3,7 @@ package annotations
 import (
 	"go/ast"
 	"go/token"
+	"go/types"
 	"regexp"
 	"strings"
 
@@ -510,6 +511,17 @@ func ExtractReceiverType(expr ast.Expr) string {
 	return ""
 }
 
+// importedPackage returns the package an import spec refers to, or nil if it is unknown
+func importedPackage(pass *analysis.Pass, spec *ast.ImportSpec) *types.Package {
+	if pass.TypesInfo == nil || spec == nil {
+		return nil
+	}
+	if pkgName := pass.TypesInfo.PkgNameOf(spec); pkgName != nil {
+		return pkgName.Imported()
+	}
+	return nil
+}
+
 var matcher = ahocorasick.NewStringMatcher([]string{
 	"@implements",
 	"@constructor",
@@ -539,7 +551,9 @@ func ReadAllAnnotations(
 		// Build import map for this file
 		imports := &util.ImportMap{}
 		for _, imp := range file.Imports {
-			imports.Add(imp, pass.Pkg)
+			// The name an import is known under is declared by the imported package,
+			// not by the package being analysed
+			imports.Add(imp, importedPackage(pass, imp))
 		}
 
 		for _, n := range file.Decls {
